@@ -792,6 +792,14 @@ func (m *mach) execED() {
 				s.PC = m.pop()
 				return
 			}
+			// ED 55 / 5D / 65 / 6D / 75 / 7D: undocumented mirrors; every one of them is RETN on a Z80 (only ED 4D is
+			// RETI). A tree need not support them, but one that does must not take them for RETI.
+			m.in.Class = "RETN"
+			m.in.Documented = false
+			m.in.RetN++
+			s.PC = m.pop()
+			s.IFF1 = s.IFF2
+			return
 		case 6:
 			switch y {
 			case 0:
